@@ -1,18 +1,9 @@
 /- Events of whole computations: which closures run, how often, and in which order. -/
 import OrxPar.Lemmas.Chain
 import OrxPar.Model.Accept
+import OrxPar.Model.Logs
 import OrxPar.Lemmas.Partition
 namespace OrxPar
-
-/-- the events of the terminal phase of a full-visit terminal under a parallel execution: every
-    worker evaluates, for each element of its chunks in order, the element's whole stream
-    (representative interleaving: the workers one after the other) -/
-def Par.parLog (P : Par) (ex : Exec) : List Event :=
-  ex.order.flatMap fun t => (K.elems (ex.chunksOf t)).flatMap fun x => (P.elem x).log
-
-/-- the events of the terminal phase: sequential mode evaluates the lazy stream front to back -/
-def Par.fullLog (P : Par) (ex : Exec) : List Event :=
-  if P.params.isSequential then P.stream.log else P.parLog ex
 
 theorem Prod.log_bindList (xs : List Val) (g : Val → Prod) :
     (Prod.bindList xs g).log = xs.flatMap (fun x => (g x).log) := by
@@ -62,24 +53,6 @@ theorem events_full (s : Src) (ops : List Op) (ex : Exec)
     exact (List.Perm.append_left _ (Par.parLog_perm _ ex ha)).trans (build_log_perm s ops)
 
 /-! ### short-circuit terminals -/
-
-/-- a worker scanning elements for a first output: each element's stream is evaluated up to its
-    first output; the scan stops after the first element that has one -/
-def scanLog (g : Val → Prod) : List Val → List Event
-  | [] => []
-  | x :: r =>
-    match (g x).first with
-    | (some _, l) => l
-    | (none, l) => l ++ scanLog g r
-
-/-- the predicate of a find-family terminal applied to the pipeline of one element -/
-def Par.elemQ (P : Par) (q : Val → Bool) : Val → Prod := fun x => (P.elem x).filterW (callW stPred q)
-
-def Par.parFindLog (P : Par) (q : Val → Bool) (ex : Exec) : List Event :=
-  ex.order.flatMap fun t => scanLog (P.elemQ q) (K.elems (ex.chunksOf t))
-
-def Par.seqFindLog (P : Par) (q : Val → Bool) : List Event :=
-  ((P.stream.filterW (callW stPred q)).first).2
 
 theorem Prod.first_skip (e : List Event) (r : Prod) :
     (Prod.skip e r).first = (r.first.1, e ++ r.first.2) := rfl
